@@ -386,3 +386,51 @@ def line_dist(src):
     out.append("def line_dist_wrappers : List LDWrap :=\n  [" + ",\n   ".join(rows) + "]")
     out.append("")
     return out
+
+
+# --------------------------------------------------------------------------- histogram range
+
+def range_terms(src):
+    """the common histogram range of the two mutual-information wrappers: which extreme of which
+    array enters `range_min` / `range_max`, and the expression of `scaling` -> Lean lines"""
+    out = ["/-! ### histogram range of the mutual-information wrappers -/"]
+    text = open(os.path.join(src, "timeseries", "_ext", "numerics.pyx")).read()
+    m = re.search(r"^def _test_mutual_information\((.*?)\):\n(.*?)(?=^def |^cdef |\Z)", text, re.S | re.M)
+    if not m:
+        raise Untranslatable("no _test_mutual_information")
+    body = " ".join(re.sub(r"#[^\n]*", "", m.group(2)).split())
+
+    def terms(name, fn):
+        mm = re.search(rf"{name} = np\.{fn}\(\((\w+)\.(\w+)\(\), (\w+)\.(\w+)\(\)\)\)", body)
+        if not mm:
+            raise Untranslatable(f"_test_mutual_information: {name} is not np.{fn} of two extremes")
+        return [(mm.group(1), mm.group(2)), (mm.group(3), mm.group(4))]
+
+    def scaling(b, who):
+        mm = re.search(r"scaling = ([^\n;]+?)(?= #| \w+\[|\Z| ndarray| mi = | DFIELD_t)", b)
+        if not mm:
+            raise Untranslatable(f"{who}: scaling not found")
+        try:
+            return ast.unparse(ast.parse(mm.group(1).strip(), mode="eval"))
+        except SyntaxError:
+            raise Untranslatable(f"{who}: scaling = {mm.group(1)!r}")
+    fmt = lambda l: "[" + ", ".join(f'("{a}", "{b}")' for a, b in l) + "]"  # noqa
+    out.append(f'def tmi_range_min : String × List (String × String) := ("np.min", {fmt(terms("range_min", "min"))})')
+    out.append(f'def tmi_range_max : String × List (String × String) := ("np.max", {fmt(terms("range_max", "max"))})')
+    out.append(f'def tmi_scaling : String := "{scaling(body, "_test_mutual_information")}"')
+    _, f = find_method(src, "climate/mutual_info.py", "MutualInfoClimateNetwork",
+                       "_cython_calculate_mutual_information")
+    vals = {}
+    for st in f.body:
+        if isinstance(st, ast.Assign) and len(st.targets) == 1 and isinstance(st.targets[0], ast.Name):
+            vals[st.targets[0].id] = ast.unparse(st.value)
+    for k in ("range_min", "range_max", "scaling", "anomaly"):
+        if k not in vals:
+            raise Untranslatable(f"_cython_calculate_mutual_information: no assignment of {k}")
+    out.append(f'def mi_range_min : String := "{vals["range_min"]}"')
+    out.append(f'def mi_range_max : String := "{vals["range_max"]}"')
+    out.append(f'def mi_scaling : String := "{vals["scaling"]}"')
+    out.append("/-- last rebinding of `anomaly` before the range is taken (the array that reaches the kernel) -/")
+    out.append(f'def mi_anomaly_last : String := "{vals["anomaly"]}"')
+    out.append("")
+    return out
